@@ -1,13 +1,398 @@
-// Package c18 is the harness for property C18 (runs the real kapacitor code, prints op lines).
+// Package c18 is the harness for property C18 (replay fidelity): it records generated points / batches
+// with the REAL kapacitor.WritePointForRecording / WriteBatchForRecording, replays the recorded bytes
+// with the REAL kapacitor.ReplayStreamFromIO / ReplayBatchFromIO into recording collectors under a
+// recording clock, and prints what was delivered.
+//
+// Case format (see lean/Kap/Driver/C18.lean for the reader):
+//
+//	stream <recTime 0|1> <zero ns> <precision>
+//	pt <db> <rp> <name> <tags> <fields> <time ns>
+//	replay => <status> <closes> <closedAt> <item>*      item = db|rp|name|tags|fields|time|group|dims|until
+//
+//	batch <recTime 0|1> <zero ns>
+//	b <name> <byname 0|1> <tmax ns> <tags> <points>       points = tags!fields!time;…  or -
+//	replay => <status> <closes> <closedAt> <item>*      item = name|byname|tmax|tags|group|dims|points|until|sizehint
+//
+// tags = k=v,k=v (sorted) or - ; fields = k=f~<bits>~<text 'f' -1>, k=i~<dec>, k=s~<esc>, k=b~<0|1> (sorted) or - .
+// status: ok | err (the replay reported an error) | recerr (the writer reported an error) | panic | hang.
 package c18
 
 import (
+	"bytes"
 	"fmt"
+	"io"
+	"math"
 	"os"
+	"sort"
+	"strconv"
+	"strings"
+	"sync"
+	"time"
+
+	"github.com/influxdata/kapacitor"
+	"github.com/influxdata/kapacitor/edge"
+	"github.com/influxdata/kapacitor/models"
+
+	"verifharness/kit"
 )
 
-// Run is replaced by the property's harness.
+// ---- recording clock: fixed zero, Until never blocks but is logged ----
+
+type recClock struct {
+	zero time.Time
+	mu   sync.Mutex
+	last string // the argument of the last Until call since the previous collect ("-" if none)
+}
+
+func (c *recClock) Zero() time.Time { return c.zero }
+func (c *recClock) Set(time.Time)   {}
+func (c *recClock) Until(t time.Time) {
+	c.mu.Lock()
+	c.last = tm(t)
+	c.mu.Unlock()
+}
+func (c *recClock) take() string {
+	c.mu.Lock()
+	defer c.mu.Unlock()
+	l := c.last
+	c.last = "-"
+	return l
+}
+
+// ---- rendering ----
+
+func tm(t time.Time) string {
+	if t.IsZero() {
+		return "Z"
+	}
+	s := strconv.FormatInt(t.UnixNano(), 10)
+	if t.Location() != time.UTC {
+		s += "L" // the replay promises UTC times
+	}
+	return s
+}
+
+func list(xs []string, sep string) string {
+	if len(xs) == 0 {
+		return "-"
+	}
+	return strings.Join(xs, sep)
+}
+
+func renderTags(t models.Tags) string {
+	var r []string
+	for _, k := range models.SortedKeys(t) {
+		r = append(r, kit.Esc(k)+"="+kit.Esc(t[k]))
+	}
+	return list(r, ",")
+}
+
+func renderValue(v interface{}) string {
+	switch x := v.(type) {
+	case float64:
+		return "f~" + kit.F64(x) + "~" + kit.Esc(string(strconv.AppendFloat(nil, x, 'f', -1, 64)))
+	case int64:
+		return "i~" + strconv.FormatInt(x, 10)
+	case string:
+		return "s~" + kit.Esc(x)
+	case bool:
+		if x {
+			return "b~1"
+		}
+		return "b~0"
+	case nil:
+		return "n~"
+	default:
+		return "x~" + kit.Esc(fmt.Sprintf("%T", v))
+	}
+}
+
+func renderFields(f models.Fields) string {
+	var r []string
+	for _, k := range models.SortedFields(f) {
+		r = append(r, kit.Esc(k)+"="+renderValue(f[k]))
+	}
+	return list(r, ",")
+}
+
+func renderDims(d models.Dimensions) string {
+	var r []string
+	for _, k := range d.TagNames {
+		r = append(r, kit.Esc(k))
+	}
+	return list(r, ",")
+}
+
+func b01(b bool) string {
+	if b {
+		return "1"
+	}
+	return "0"
+}
+
+// ---- collectors ----
+
+type collector struct {
+	clk      *recClock
+	mu       sync.Mutex
+	items    []string
+	closes   int
+	closedAt int
+}
+
+func (c *collector) CollectPoint(p edge.PointMessage) error {
+	u := c.clk.take()
+	c.mu.Lock()
+	defer c.mu.Unlock()
+	c.items = append(c.items, strings.Join([]string{
+		kit.Esc(p.Database()), kit.Esc(p.RetentionPolicy()), kit.Esc(p.Name()), renderTags(p.Tags()), renderFields(p.Fields()),
+		tm(p.Time()), kit.Esc(string(p.GroupID())), b01(p.Dimensions().ByName) + ":" + renderDims(p.Dimensions()), u}, "|"))
+	return nil
+}
+
+func (c *collector) CollectBatch(b edge.BufferedBatchMessage) error {
+	u := c.clk.take()
+	var pts []string
+	for _, p := range b.Points() {
+		pts = append(pts, renderTags(p.Tags())+"!"+renderFields(p.Fields())+"!"+tm(p.Time()))
+	}
+	c.mu.Lock()
+	defer c.mu.Unlock()
+	c.items = append(c.items, strings.Join([]string{
+		kit.Esc(b.Name()), b01(b.Dimensions().ByName), tm(b.Begin().Time()), renderTags(b.Tags()), kit.Esc(string(b.GroupID())),
+		renderDims(b.Dimensions()), list(pts, ";"), u, strconv.Itoa(b.Begin().SizeHint())}, "|"))
+	return nil
+}
+
+func (c *collector) Close() error {
+	c.mu.Lock()
+	defer c.mu.Unlock()
+	c.closes++
+	if c.closes == 1 {
+		c.closedAt = len(c.items)
+	}
+	return nil
+}
+
+func (c *collector) result(status string) string {
+	c.mu.Lock()
+	defer c.mu.Unlock()
+	r := []string{status, strconv.Itoa(c.closes), strconv.Itoa(c.closedAt)}
+	return strings.Join(append(r, c.items...), " ")
+}
+
+// ---- parsing of op tokens ----
+
+func un(s string) string { v, _ := kit.Unesc(s); return v }
+
+func parseTime(s string) time.Time {
+	if s == "Z" {
+		return time.Time{}
+	}
+	v, _ := strconv.ParseInt(s, 10, 64)
+	return time.Unix(0, v).UTC()
+}
+
+func parseTags(s string) models.Tags {
+	t := models.Tags{}
+	if s == "-" {
+		return t
+	}
+	for _, kv := range strings.Split(s, ",") {
+		p := strings.SplitN(kv, "=", 2)
+		if len(p) == 2 {
+			t[un(p[0])] = un(p[1])
+		}
+	}
+	return t
+}
+
+func parseFields(s string) models.Fields {
+	f := models.Fields{}
+	if s == "-" {
+		return f
+	}
+	for _, kv := range strings.Split(s, ",") {
+		p := strings.SplitN(kv, "=", 2)
+		if len(p) != 2 {
+			continue
+		}
+		v := strings.Split(p[1], "~")
+		if len(v) < 2 {
+			continue
+		}
+		switch v[0] {
+		case "f":
+			bits, _ := strconv.ParseUint(v[1], 16, 64)
+			f[un(p[0])] = math.Float64frombits(bits)
+		case "i":
+			x, _ := strconv.ParseInt(v[1], 10, 64)
+			f[un(p[0])] = x
+		case "s":
+			f[un(p[0])] = un(v[1])
+		case "b":
+			f[un(p[0])] = v[1] == "1"
+		}
+	}
+	return f
+}
+
+type nopCloser struct{ io.Reader }
+
+func (nopCloser) Close() error { return nil }
+
+func wait(errC <-chan error) string {
+	select {
+	case err := <-errC:
+		if err != nil {
+			return "err"
+		}
+		return "ok"
+	case <-time.After(20 * time.Second):
+		return "hang"
+	}
+}
+
+// execCase records and replays one case with the real code and returns the lines with observations.
+func execCase(ops []string) (out []string) {
+	var (
+		mode      string
+		recTime   bool
+		zero      time.Time
+		precision = "n"
+		buf       bytes.Buffer
+		recErr    bool
+	)
+	for _, raw := range ops {
+		line := raw
+		if i := strings.Index(line, " => "); i >= 0 {
+			line = line[:i]
+		}
+		t := strings.Fields(line)
+		if len(t) == 0 {
+			continue
+		}
+		switch t[0] {
+		case "stream":
+			mode, recTime, zero, precision = "stream", t[1] == "1", parseTime(t[2]), t[3]
+			out = append(out, line)
+		case "batch":
+			mode, recTime, zero = "batch", t[1] == "1", parseTime(t[2])
+			out = append(out, line)
+		case "pt":
+			p := edge.NewPointMessage(un(t[3]), un(t[1]), un(t[2]), models.Dimensions{}, parseFields(t[5]), parseTags(t[4]), parseTime(t[6]))
+			func() {
+				defer func() {
+					if r := recover(); r != nil {
+						recErr = true
+					}
+				}()
+				if err := kapacitor.WritePointForRecording(&buf, p, precision); err != nil {
+					recErr = true
+				}
+			}()
+			out = append(out, line)
+		case "b":
+			var pts []edge.BatchPointMessage
+			if t[5] != "-" {
+				for _, ps := range strings.Split(t[5], ";") {
+					q := strings.Split(ps, "!")
+					if len(q) != 3 {
+						continue
+					}
+					pts = append(pts, edge.NewBatchPointMessage(parseFields(q[1]), parseTags(q[0]), parseTime(q[2])))
+				}
+			}
+			b := edge.NewBufferedBatchMessage(edge.NewBeginBatchMessage(un(t[1]), parseTags(t[4]), t[2] == "1", parseTime(t[3]), len(pts)), pts, edge.NewEndBatchMessage())
+			func() {
+				defer func() {
+					if r := recover(); r != nil {
+						recErr = true
+					}
+				}()
+				if err := kapacitor.WriteBatchForRecording(&buf, b); err != nil {
+					recErr = true
+				}
+			}()
+			out = append(out, line)
+		case "replay":
+			if recErr {
+				out = append(out, line+" => recerr 0 0")
+				continue
+			}
+			clk := &recClock{zero: zero, last: "-"}
+			col := &collector{clk: clk}
+			data := nopCloser{bytes.NewReader(buf.Bytes())}
+			var status string
+			func() {
+				defer func() {
+					if r := recover(); r != nil {
+						status = "panic"
+					}
+				}()
+				if mode == "stream" {
+					status = wait(kapacitor.ReplayStreamFromIO(clk, data, col, recTime, precision))
+				} else {
+					status = wait(kapacitor.ReplayBatchFromIO(clk, []io.ReadCloser{data}, []kapacitor.BatchCollector{col}, recTime))
+				}
+			}()
+			// the error channel may deliver before the replaying goroutine has closed the collector
+			for i := 0; i < 2000; i++ {
+				col.mu.Lock()
+				c := col.closes
+				col.mu.Unlock()
+				if c > 0 || status == "hang" || status == "panic" {
+					break
+				}
+				time.Sleep(time.Millisecond)
+			}
+			out = append(out, line+" => "+col.result(status))
+		}
+	}
+	return out
+}
+
+func emit(out *kit.Out, id string, lines []string) {
+	out.Line("case", id)
+	for _, l := range lines {
+		out.Line(l)
+	}
+	out.Line("end")
+}
+
+var _ = sort.Strings
+
+// Run: `vh-c18 -seed S -n N [-tier thorough]` generates; `vh-c18 -ops file` re-executes the cases of a file.
 func Run(args []string) int {
-	fmt.Fprintln(os.Stderr, "c18: harness not implemented yet")
-	return 3
+	f := kit.ParseFlags(args)
+	out := kit.NewOut()
+	defer out.Flush()
+	if f.Ops != "" {
+		lines, err := kit.ReadLines(f.Ops)
+		if err != nil {
+			fmt.Fprintln(os.Stderr, err)
+			return 2
+		}
+		var cur []string
+		id := ""
+		for _, l := range lines {
+			t := strings.Fields(l)
+			switch {
+			case len(t) == 2 && t[0] == "case":
+				id, cur = t[1], nil
+			case len(t) == 1 && t[0] == "end":
+				emit(out, id, execCase(cur))
+				out.Flush()
+			default:
+				cur = append(cur, l)
+			}
+		}
+		return 0
+	}
+	r := kit.NewRand(f.Seed)
+	for i := 0; i < f.N; i++ {
+		emit(out, fmt.Sprintf("g%d", i), execCase(genCase(r.Fork(), i, f.Tier)))
+		out.Flush()
+	}
+	return 0
 }
